@@ -1576,3 +1576,38 @@ Proof.
   assert (n <=? 127 = false) as -> by lia. assert (n <? 2147483648 = true) as -> by lia.
   rewrite lor_top_bit by exact H2. reflexivity.
 Qed.
+
+(* ---------- several rules: a rule that cannot split the path is passed over ---------- *)
+(* the "no index file present" branch of Handler.ServeHTTP: `if !rule.canSplit(fpath) { continue }` *)
+Theorem unsplittable_rule_is_skipped cs stat_ok open_ok r rest i p :
+  index_file open_ok (trim_right p) (r_index r) = None ->
+  can_split cs r (trim_right p) = false ->
+  serve cs stat_ok open_ok (r :: rest) i p = serve cs stat_ok open_ok rest (S i) p.
+Proof.
+  intros IX CS. simpl. destruct (rule_matches cs r p); [|reflexivity]. simpl.
+  destruct (allowed cs r p); [|reflexivity]. simpl. rewrite IX, CS. reflexivity.
+Qed.
+
+(* ... so a script of a LATER rule reaches that rule's responder whatever rules that cannot split it (and
+   have no index file for it) stand in front *)
+Theorem later_rule_claims_its_script cs stat_ok open_ok pre rest i p r :
+  Forall (fun r0 => index_file open_ok (trim_right p) (r_index r0) = None /\ can_split cs r0 (trim_right p) = false) pre ->
+  rule_matches cs r p = true -> allowed cs r p = true ->
+  r_ext r <> [] -> last_byte (r_ext r) <> Some SLASH ->
+  has_suffix (to_lower (trim_right p)) (to_lower (r_ext r)) = true ->
+  can_split cs r (trim_right p) = true ->
+  exists j, serve cs stat_ok open_ok (pre ++ r :: rest) i p = ODispatch j (trim_right p).
+Proof.
+  intros F. revert i. induction F as [|r0 pre [IX CS] F IH]; intros i M A E L S C.
+  - simpl app. eapply serve_ext_dispatched; eauto. left. reflexivity.
+  - simpl app. rewrite (unsplittable_rule_is_skipped _ _ _ _ _ _ _ IX CS). apply IH; assumption.
+Qed.
+
+Definition pl_rule : rule :=
+  {| r_path := bs "/cgi"; r_ext := bs ".pl"; r_split := bs ".pl"; r_index := []; r_except := []; r_env := []; r_root := [] |}.
+Lemma later_rule_witness :
+  can_split false php_rule (bs "/cgi/tool.pl") = false /\
+  serve false (fun _ => true) (fun _ => true) [php_rule; pl_rule] 0 (bs "/cgi/tool.pl") = ODispatch 1 (bs "/cgi/tool.pl") /\
+  serve false (fun _ => false) (fun _ => false) [php_rule; pl_rule] 0 (bs "/cgi/tool.pl/extra/info") = ODispatch 1 (bs "/cgi/tool.pl/extra/info") /\
+  serve false (fun _ => true) (fun _ => true) [php_rule] 0 (bs "/cgi/tool.pl") = ONext.
+Proof. vm_compute. repeat split; reflexivity. Qed.
